@@ -8,6 +8,15 @@ pub mod stdspec {
     pub assume_specification<T, A: core::alloc::Allocator>[Vec::<T, A>::set_len](v: &mut Vec<T, A>, n: usize)
         ensures final(v)@.len() == n;
 
+    // rule R22: `<[usize]>::contains` on a 2-array (assumed contract)
+    #[verifier::external_body]
+    pub fn arr2_contains(a: [usize; 2], x: usize) -> (r: bool) ensures r == (a[0] == x || a[1] == x) { a.contains(&x) }
+
+    // ---- typing of f64 struct fields (Verus emits no typing invariant for them; DESIGN §2)
+    pub uninterp spec fn f64_code(x: f64) -> int;
+    pub uninterp spec fn f64_of_code(c: int) -> f64;
+    pub open spec fn typed(x: f64) -> bool { f64_of_code(f64_code(x)) == x }
+
     // ---- casts (rule R5): Verus has no int<->float `as`
     pub uninterp spec fn f_of_int(n: int) -> f64;
     pub uninterp spec fn f_to_int(x: f64) -> int;       // value of `x as <int type>` when it fits
